@@ -226,6 +226,33 @@ pub fn run(cfg: &Cfg, rep: &mut Report) {
             expect_class(ctx, "voltage with suffix HZ", "not-in-allowed-set", r.err().map(|e| e.get_code()), false);
         }
         {
+            // a suffix that is not in the set defined for the quantity (same reading as the HZ case above), for plain,
+            // amplitude and decibel conversions; only judged when the conversion refuses it (acceptance is C18's business)
+            use scpi::parser::suffix::{Amplitude, Db};
+            use scpi::units::uom::si::f32::{ElectricCurrent, ElectricPotential, Frequency, Power, Ratio, Time};
+            let lit: &[u8] = *rng.pick(&[&b"1"[..], b"2.5", b"-3e1", b"+10"]);
+            macro_rules! undefined_suffix {
+                ($t:ty, $name:literal, [$($s:literal),+]) => {{
+                    let sfx: &[u8] = *rng.pick(&[$(&$s[..]),+]);
+                    let sfx: Vec<u8> = sfx.iter().map(|c| if rng.bool() { c.to_ascii_lowercase() } else { *c }).collect();
+                    let r: Result<$t, Error> = <$t>::try_from(Token::DecimalNumericSuffixProgramData(lit, &sfx));
+                    match r {
+                        Err(e) => expect_class(ctx, &format!("{} with a suffix not defined for it", $name), "not-in-allowed-set", Some(e.get_code()), false),
+                        Ok(_) => ctx.count("cause.undefined-suffix.accepted(no verdict here)"),
+                    }
+                }};
+            }
+            undefined_suffix!(ElectricPotential, "voltage", [b"HZ", b"S", b"W", b"VV", b"OHM", b"KVV", b"DBW"]);
+            undefined_suffix!(Frequency, "frequency", [b"V", b"S", b"HZZ", b"KH", b"DBM"]);
+            undefined_suffix!(Time, "time", [b"HZ", b"V", b"SS", b"MSEC", b"H"]);
+            undefined_suffix!(Amplitude<ElectricPotential>, "voltage amplitude", [b"HZPK", b"SPP", b"WRMS", b"APK", b"HZ", b"PKPK"]);
+            undefined_suffix!(Amplitude<ElectricCurrent>, "current amplitude", [b"VPK", b"HZRMS", b"OHMPP"]);
+            undefined_suffix!(Db<f32, ElectricPotential>, "voltage level", [b"DBW", b"DBM", b"DBX", b"DB1", b"HZ", b"DBHZ", b"DBA", b"DBMW"]);
+            undefined_suffix!(Db<f32, Power>, "power level", [b"DBV", b"DBUV", b"DBX", b"DBMV", b"V"]);
+            undefined_suffix!(Db<f32, Ratio>, "ratio level", [b"DBV", b"DBM", b"DBW", b"HZ"]);
+            undefined_suffix!(Db<f32, ElectricCurrent>, "current level", [b"DBV", b"DBW", b"DBM", b"V"]);
+        }
+        {
             // response buffer exhausted
             let mut f: ArrayVec<u8, 4> = ArrayVec::new();
             let r = 123456i32.format_response_data(&mut f);
